@@ -71,7 +71,10 @@ def store1(ctx) -> List[Ob]:
                 if isinstance(c.args[1], ast.Constant) and isinstance(c.args[1].value, str):
                     fields = [c.args[1].value]
                 else:
-                    out.append(unresolved("STORE-1", fn.qualname, A.alpha_key(c), ctx.where(fn, c), "setattr with a computed attribute name"))
+                    tt0 = ctx.type_of(fn, c.args[0])
+                    may_block = any(m[0] == "cls" and (m[1] in block_names_ or m[1] in ("SCFG",)) for m in members(strip_none(tt0))) or (tt0 == ("any",) and fn.module in _owner_modules(ctx))
+                    if may_block:
+                        out.append(unresolved("STORE-1", fn.qualname, A.alpha_key(c), ctx.where(fn, c), "setattr with a computed attribute name on a value that may be a block"))
                     continue
                 target = c.args[0]
             else:
@@ -785,7 +788,7 @@ def _rename_loops(fn_node: ast.AST):
     return out
 
 
-@rule("STORE-7", 3, "a rename reaches both tuples of a block (targets and back edges) and every position")
+@rule("STORE-7", 2, "a rename reaches both tuples of a block (targets and back edges) and every position")
 def store7(ctx) -> List[Ob]:
     out: List[Ob] = []
     prog = ctx.prog
@@ -833,7 +836,13 @@ def store7(ctx) -> List[Ob]:
                     out.append(bad("STORE-7", fn.qualname, key, where, "back edges are renamed in a copy that is never written back (no replace_backedges)"))
                 else:
                     out.append(ok("STORE-7", fn.qualname, key, where, f"{tg[0]}->{tg[1]} applied to both _jump_targets and backedges of {blk}"))
-    # (b) positional renames guarded by a length test must treat every position independently
+    return out
+
+
+@rule("STORE-10", 1, "where successors are renamed position by position under a length test, every position is treated by an independent test")
+def store10(ctx) -> List[Ob]:
+    out: List[Ob] = []
+    prog = ctx.prog
     for fn in prog.functions:
         for st in A.walk_no_nested(fn.node):
             if not isinstance(st, ast.If):
@@ -863,11 +872,11 @@ def store7(ctx) -> List[Ob]:
             missing = set(range(n_len)) - set(handled)
             if chained:
                 which = sorted(i for i, h in handled.items() if h == "elif")
-                out.append(bad("STORE-7", fn.qualname, key, where, f"positions of {X} are renamed in an if/elif chain: when several positions hold the name only the first is rewired, position(s) {which} keep a name that no longer exists"))
+                out.append(bad("STORE-10", fn.qualname, key, where, f"positions of {X} are renamed in an if/elif chain: when several positions hold the name only the first is rewired, position(s) {which} keep a name that no longer exists"))
             elif missing:
-                out.append(bad("STORE-7", fn.qualname, key, where, f"position(s) {sorted(missing)} of {X} are never renamed"))
+                out.append(bad("STORE-10", fn.qualname, key, where, f"position(s) {sorted(missing)} of {X} are never renamed"))
             else:
-                out.append(ok("STORE-7", fn.qualname, key, where, f"every position {sorted(handled)} renamed by an independent test"))
+                out.append(ok("STORE-10", fn.qualname, key, where, f"every position {sorted(handled)} renamed by an independent test"))
     return out
 
 
